@@ -22,32 +22,7 @@ done
 $TOOLS/llvm-profdata merge -sparse $W/prof/*.profraw -o $W/all.profdata
 $TOOLS/llvm-cov report $EXE -instr-profile=$W/all.profdata --ignore-filename-regex='(\.cargo|rustc|/verif/)' 2>/dev/null \
   | sed 's#/repo/##' > /verif/notes/coverage.txt
-$TOOLS/llvm-cov report $EXE -instr-profile=$W/all.profdata --show-functions /repo/src 2>/dev/null > $W/functions.txt || true
-$TOOLS/llvm-cov export $EXE -instr-profile=$W/all.profdata -format=text --ignore-filename-regex='(\.cargo|rustc|/verif/)' 2>/dev/null > $W/export.json
-python3 - <<'EOF'
-import json, re, subprocess, collections
-d = json.load(open('/tmp/cov/export.json'))
-un = collections.defaultdict(list)
-for f in d['data'][0]['functions']:
-    files = [x for x in f['filenames'] if x.startswith('/repo/src')]
-    if not files:
-        continue
-    if f['count'] == 0:
-        un[files[0].replace('/repo/', '')].append(f['name'])
-# demangle
-names = sorted({n for v in un.values() for n in v})
-try:
-    out = subprocess.run(['rustfilt'], input='\n'.join(names), capture_output=True, text=True).stdout.split('\n')
-    dem = dict(zip(names, out))
-except Exception:
-    dem = {n: n for n in names}
-with open('/verif/notes/coverage-uncovered.txt', 'w') as o:
-    o.write('# functions of /repo/src (monomorphised instances) never entered by any quick harness run\n')
-    for f in sorted(un):
-        short = sorted({re.sub(r'::h[0-9a-f]{16}$', '', dem.get(n, n)) for n in un[f]})
-        o.write(f'\n{f} ({len(short)})\n')
-        for n in short:
-            o.write(f'  {n}\n')
-EOF
+$TOOLS/llvm-cov show $EXE -instr-profile=$W/all.profdata --ignore-filename-regex='(\.cargo|rustc|/verif/)' 2>/dev/null > $W/show.txt
+python3 /verif/tools/coverage_uncovered.py
 [ "${KEEP:-0}" = 1 ] || rm -rf $W
 head -60 /verif/notes/coverage.txt
